@@ -1,7 +1,7 @@
 #!/bin/bash
 # usage: sweep.sh <tier> <seed>... ; runs every registered check for each seed, 5 in parallel; prints one line per run
 tier=$1; shift
-cd /verif
+cd "$(dirname "$0")/.."
 props=$(/venv/bin/python -c "import json;print(' '.join(c['property_id'] for c in json.load(open('MANIFEST.json'))['checks']))" 2>/dev/null)
 mkdir -p /tmp/sweep
 for seed in "$@"; do
